@@ -17,7 +17,7 @@ from vlib import progs, decoders
 
 TYPES = ["hex", "srec", "elf", "bin", "wdc", "uf2", "amiga", "macho"]
 NUM_RE = re.compile(r"(?<![\w.$])(0x[0-9a-fA-F]+|\d+)\b")
-DIMS = ["clock", "heap", "stack", "chunk", "flags", "name", "type", "history-main", "history-api", "repeat", "heap+stack+clock", "build", "flags+name"]
+DIMS = ["clock", "heap", "stack", "chunk", "flags", "name", "type", "history-main", "history-api", "repeat", "heap+stack+clock", "build", "flags+name", "default-cpu"]
 
 
 def strip_s0(b):
@@ -323,6 +323,15 @@ class C13(Engine):
                                  history=[(h["cpu"], h["code"][:300]) for h in p["history"]])
                 res.probe("dim:history-api")
                 continue
+            if dim == "default-cpu":
+                # the default CPU is the MSP430: the program without its .msp430 directive is the same program
+                if prog["cpu"] != "msp430" or prog["stmts"][0] != [".msp430"] or prog["files"]:
+                    res.probe("default_cpu_not_applicable")
+                    continue
+                bare = dict(prog, stmts=prog["stmts"][1:])
+                extra = dict(extra)
+                extra["/sim/w/a.asm"] = progs.render(bare).encode("latin-1")
+                res.probe("default_cpu_compared")
             o = asm(argv, env, extra, build="small" if dim == "build" else None)
             if env or dim == "build":
                 res.nontrivial = True
